@@ -179,6 +179,15 @@ func TestCheck(t *testing.T) {
 		if _, err := run.LoadReplay(cfg.Replay, &c); err != nil {
 			t.Fatal(err)
 		}
+		var k int
+		if n, _ := fmt.Sscanf(c.Base, "foreign-owner scenario %d", &k); n == 1 {
+			// a fixed scenario (no parameters beyond its number)
+			rec.Eval()
+			if msg, _ := foreignOwnerCase(k); msg != "" {
+				rec.Fail("foreign", c, "", msg)
+			}
+			return
+		}
 		do(c)
 		return
 	}
@@ -283,6 +292,30 @@ func TestCheck(t *testing.T) {
 		}
 		rec.Class("files+volumes==256")
 		do(c)
+	}
+	// a readable set owned by another user, verified without privileges
+	for k := 0; k < 2; k++ {
+		if !cfg.Mine(64 + k) {
+			continue
+		}
+		rec.Eval()
+		if msg, ran := foreignOwnerCase(k); !ran {
+			rec.Class("foreign-owner-case-skipped(no privileges to drop)")
+		} else {
+			rec.Class("verify-as-non-owner")
+			if msg != "" {
+				rec.Fail("foreign", scen.Case1{Base: fmt.Sprintf("foreign-owner scenario %d (fixed case)", k)}, "", msg)
+			}
+		}
+	}
+	// a file of more than a megabyte whose second half is all zero, lost and restored
+	for k, sz := range []int{1<<20 + 102400, 2 << 20} {
+		if !cfg.Mine(60+k) || (k > 0 && !cfg.Thorough()) {
+			continue
+		}
+		rec.Class("file>=1MiB-with-zero-tail")
+		do(scen.Case1{NVol: 1, DoubleCheck: k == 1, Files: []scen.FileSpec{{Name: "img.bin", Size: sz, Kind: "halfzero", Seed: uint64(80 + k)}, {Name: "b.bin", Size: 100, Kind: "random", Seed: 6}},
+			Damage: []scen.Damage{{Op: "delete", File: 0}}})
 	}
 	cfg.SetRapid(cfg.N(500, 8000), 1)
 	rapid.Check(t, func(rt *rapid.T) {
